@@ -324,7 +324,7 @@ def run(ctx):
         return
     from vf.draw import draw_stratified
     from vf.runner import case_hash, load_regress
-    n_models, n_hist = (8, 40) if ctx.quick else (60, 200)
+    n_models, n_hist = (16, 40) if ctx.quick else (60, 200)
     cases = load_regress(ctx.prop, name) + draw_stratified(strata(), n_models, ctx.seed,
                                                            wrap=with_histories(n_hist))
     done = {}
